@@ -1052,8 +1052,156 @@ def run(ctx):
             ctx.count('note:outside:%s -> %s' % (s, r['error']))
     parser_tie(ctx, ctx.scale(500, 12000))
     e2e(ctx)
+    xscope(ctx)
     ctx.extra['lean_parse_mismatch'] = ctx.extra.get('lean_parse_mismatch', [])[:5]
 
 
 def replay(ctx, data):
     run(ctx)
+
+
+# ---------------------------------------------------------------------------------------------------------------
+# oracle (3b): queries CREATED in one scope and EXECUTED from another, with clashing names
+
+XS_CREATOR = '''
+GV = %(GV)r
+def outer(cv):
+    def make(v):
+        w = %(w)r
+        q = %(create)s
+        return q, (%(expr)s)
+    return make
+class K:
+    def __init__(self, cv): self.cv = cv
+    def make(self, v):
+        cv = self.cv; w = %(w)r
+        q = %(create)s
+        return q, (%(expr)s)
+def plain(v, w=%(w)r, cv=%(cv)r):
+    q = %(create)s
+    return q, (%(expr)s)
+'''
+
+XS_EXECUTOR = '''
+import functools
+%(gclash)s
+def execute(q):
+    %(lclash)s
+    return %(entry)s
+def via(q):
+    return execute(q)
+def via2(q):
+    def inner():
+        return via(q)
+    return inner()
+class Runner:
+    def run(self, q):
+        return via(q)
+'''
+
+XS_EXPRS = ['v + 1', 'w * 2 + v', 'cv - v', 'GV + v', 'GV', '(v if w else cv) + GV', 'max(v, w) + cv', 'GV * 2 - cv', 'w', 'abs(cv) + GV']
+
+XS_ENTRIES = {
+    'gen': ['select(q)', 'left_join(q)', 'exists(q)', 'get(q)', 'delete(q)', 'functools.partial(select, q)()', 'count(q)',
+            'select(q).count()', 'select(p for p in select(q))'],
+    'gennum': ['sum(q)', 'min(q)', 'max(q)', 'avg(q)', 'select(q)'],
+    'lam': ['P.select(q)', 'P.get(q)', 'P.exists(q)', 'P.select().filter(q)', 'P.select().where(q)',
+            'select(p for p in P).filter(q)', 'functools.partial(P.select, q)()'],
+    'lamord': ['P.select().order_by(q)', 'select(p for p in P).order_by(q)'],
+    'strgen': ['select(q[0], q[1], q[2])', 'left_join(q[0], q[1], q[2])', 'exists(q[0], q[1], q[2])'],
+    'strlam': ['P.select(q[0], q[1], q[2])', 'P.select().filter(q[0], q[1], q[2])', 'P.select().where(q[0], q[1], q[2])'],
+}
+
+
+def xs_create(kind, expr):
+    if kind == 'gen': return '(p for p in P if p.x == (%s))' % expr
+    if kind == 'gennum': return '(p.x for p in P if p.x == (%s))' % expr
+    if kind == 'lam': return 'lambda p: p.x == (%s)' % expr
+    if kind == 'lamord': return 'lambda p: p.x + (%s)' % expr
+    if kind == 'strgen': return '(%r, globals(), dict(v=v, w=w, cv=cv))' % ('p for p in P if p.x == (%s)' % expr)
+    if kind == 'strlam': return '(%r, globals(), dict(v=v, w=w, cv=cv))' % ('lambda p: p.x == (%s)' % expr)
+    raise AssertionError(kind)
+
+
+def xscope_case(ctx, rec, rng, kind, entry, expr, creator, route, clash_locals, clash_globals):
+    from pony.orm import select, left_join, exists, get, delete, count, sum as psum, min as pmin, max as pmax, avg, db_session
+    base = e2e_setup()
+    vals = {n: rng.choice([-3, -1, 0, 1, 2, 5]) for n in ('GV', 'v', 'w', 'cv')}
+    other = {n: 9000 + i for i, n in enumerate(('GV', 'v', 'w', 'cv'))}
+    GA = {'P': base['P'], '__name__': 'c04_creator'}
+    GB = {'P': base['P'], 'select': select, 'left_join': left_join, 'exists': exists, 'get': get, 'delete': delete, 'count': count,
+          'sum': psum, 'min': pmin, 'max': pmax, 'avg': avg, '__name__': 'c04_executor'}
+    src_a = XS_CREATOR % {'GV': vals['GV'], 'w': vals['w'], 'cv': vals['cv'], 'create': xs_create(kind, expr), 'expr': expr}
+    src_b = XS_EXECUTOR % {
+        'gclash': '\n'.join('%s = %r' % (n, other[n] + 500) for n in clash_globals) or 'pass',
+        'lclash': '; '.join('%s = %r' % (n, other[n]) for n in clash_locals) or 'pass',
+        'entry': entry}
+    exec(compile(src_a, '<c04-xs-creator-%d>' % len(_keep), 'exec'), GA)
+    exec(compile(src_b, '<c04-xs-executor-%d>' % len(_keep), 'exec'), GB)
+    _keep.append((GA, GB))
+    if creator == 'closure': q, exp = GA['outer'](vals['cv'])(vals['v'])
+    elif creator == 'method': q, exp = GA['K'](vals['cv']).make(vals['v'])
+    else: q, exp = GA['plain'](vals['v'])
+    rec.clear(); rec.trees = []
+    err = None
+    with db_session:
+        try:
+            r = {'execute': GB['execute'], 'via': GB['via'], 'via2': GB['via2'], 'method': GB['Runner']().run}[route](q)
+            if hasattr(r, '_vars'): pass
+        except Exception as e:
+            err = e
+    program = {'creator_module': src_a.strip(), 'executor_module': src_b.strip(), 'creator': creator, 'route': route,
+               'creator_values': vals}
+    ctx.case(['xscope', kind, entry, expr, creator, route, sorted(clash_locals), sorted(clash_globals)], kind='xscope:' + kind)
+    ctx.count('xscope-entry:' + entry)
+    from pony.orm.core import ExprEvalError
+    if isinstance(err, ExprEvalError):
+        ctx.count('xscope:loud:ExprEvalError'); return None
+    bound = []
+    for vars in rec:
+        for k, v in vars.items():
+            if k[1] in ('P', '.0') or not isinstance(v, (int, float, str)) or isinstance(v, bool): continue
+            bound.append((k[1], v))
+    if not bound:
+        ctx.count('xscope:no-parameter' + (':' + type(err).__name__ if err else '')); return None
+    bad = [(s, v) for s, v in bound if typed(v) != typed(exp)]
+    if bad:
+        return {'what': 'a query created in one scope and executed from another binds the value of the EXECUTING scope',
+                'program': program, 'entry': entry, 'expr': expr, 'pony': [[s, typed(v)] for s, v in bad], 'python': typed(exp),
+                'clash_locals': sorted(clash_locals), 'clash_globals': sorted(clash_globals), 'kind': kind}
+    ctx.count('xscope:equal')
+    return None
+
+
+def xscope(ctx):
+    rec = install_recorder()
+    rng = random.Random(ctx.seed * 7477 + 11)
+    names = ['GV', 'v', 'w', 'cv']
+    cases = []
+    # every entry point at least once with full clashes, then random combinations
+    for kind, entries in XS_ENTRIES.items():
+        for entry in entries:
+            for expr in ('GV + v', 'w * 2 + v', 'cv - v'):
+                cases.append((kind, entry, expr, rng.choice(['closure', 'method', 'plain']), rng.choice(['execute', 'via', 'via2', 'method']),
+                              set(names), set(names)))
+    for _ in range(ctx.scale(120, 3000)):
+        kind = rng.choice(list(XS_ENTRIES))
+        cl = set(n for n in names if rng.random() < .6)
+        cg = set(n for n in names if rng.random() < .4)
+        cases.append((kind, rng.choice(XS_ENTRIES[kind]), rng.choice(XS_EXPRS), rng.choice(['closure', 'method', 'plain']),
+                      rng.choice(['execute', 'via', 'via2', 'method']), cl, cg))
+    seen = set()
+    for kind, entry, expr, creator, route, cl, cg in cases:
+        try:
+            f = xscope_case(ctx, rec, rng, kind, entry, expr, creator, route, cl, cg)
+        except RecursionError:
+            continue
+        if not f: continue
+        used = sorted(n.id for n in ast.walk(ast.parse(expr, mode='eval')) if isinstance(n, ast.Name) and n.id in names)
+        has_global = 'GV' in used and ('GV' in f['clash_locals'] or 'GV' in f['clash_globals'])
+        key = 'xscope:%s:%s' % ('generator' if kind.startswith('gen') else 'lambda' if kind.startswith('lam') else 'string',
+                                'creator-global-shadowed-by-executing-scope' if has_global else 'creator-free-variable-shadowed-by-executing-scope')
+        if key in seen: continue
+        seen.add(key)
+        ctx.violation(f['what'], {'program': f['program'], 'entry': f['entry'], 'expr': f['expr'], 'clash_locals': f['clash_locals'],
+                                  'clash_globals': f['clash_globals']}, observed=f['pony'], expected=f['python'], key=key)
